@@ -1,28 +1,327 @@
-import RzilVerif.Model.Compile
+import RzilVerif.Lemmas.ExprT2
 /-!
-# C02 — operators (first version; the full preservation theorem is being proved separately)
+# C02 — the lowering of expressions preserves C semantics (operators)
+
+`expr_correct_fixed`: for every expression of the pure fragment (all constructors of `CExpr` except the
+value-producing side effects `.post/.call/.stmtexpr`, which `evalC`/`compileExpr` reject), the IL the repaired
+lowering (`Cfg.fixed`) produces evaluates to the C value (`Rel`) and has the C type (`TyOK`).
+The per-constructor lemmas are in `RzilVerif/Lemmas/ExprCases.lean`.
 -/
 namespace Rzil
 
-/-- The specification's common type is symmetric. -/
-theorem CT.common_comm (a b : CT) : a.common b = b.common a := by
-  obtain ⟨sa, wa⟩ := a; obtain ⟨sb, wb⟩ := b
-  simp only [CT.common, CT.promote]
-  cases sa <;> cases sb <;> (repeat' split) <;> simp_all [Nat.max_comm] <;> try omega
+/-- all constructors at once (`Good` = the statement for one expression, `GoodArgs` for an argument list) -/
+theorem good_all (ms : MacroSem) (σ : MState) (asg : List String) (hms : MsOK ms) (e : CExpr) : Good ms σ asg e := by
+  refine CExpr.rec (motive_1 := Good ms σ asg) (motive_2 := GoodArgs ms σ asg)
+    ?reg ?imm ?lit ?var ?cast ?un ?not ?bin ?shift ?cmp ?log ?tern ?macroc ?load ?post ?call ?stmtexpr ?nil ?cons e
+  case reg => exact fun n k t => good_reg ms σ asg n k t
+  case imm => exact fun l s => good_imm ms σ asg l s
+  case lit => exact fun v h s => good_lit ms σ asg v h s
+  case var => exact fun n t => good_var ms σ asg n t
+  case cast => exact fun t e ih => good_cast ms σ asg t e ih
+  case un => exact fun op e ih => good_un ms σ asg op e ih
+  case not => exact fun e ih => good_not ms σ asg e ih
+  case bin => exact fun op a b iha ihb => good_bin ms σ asg op a b iha ihb
+  case shift => exact fun op a b iha ihb => good_shift ms σ asg op a b iha ihb
+  case cmp => exact fun op a b iha ihb => good_cmp ms σ asg op a b iha ihb
+  case log => exact fun op a b iha ihb => good_log ms σ asg op a b iha ihb
+  case tern => exact fun c a b ihc iha ihb => good_tern ms σ asg c a b ihc iha ihb
+  case macroc => exact fun name args ret params ih => good_macro ms σ asg name args ret params hms ih
+  case load => exact fun s w t => good_load ms σ asg s w t
+  case post => intro v t op _ vC ce hC _; rw [evalC_post] at hC; cases hC
+  case call => intro n a r p _ _ vC ce hC _; rw [evalC_call] at hC; cases hC
+  case stmtexpr => intro t v e _ _ vC ce hC _; rw [evalC_stmtexpr] at hC; cases hC
+  case nil => exact goodArgs_nil ms σ asg
+  case cons => exact fun a as iha ihas => goodArgs_cons ms σ asg a as iha ihas
 
-/-- Promotion never narrows and yields at least 32 bit. -/
-theorem CT.promote_width (t : CT) : 32 ≤ t.promote.width := by
-  unfold CT.promote; split <;> simp_all <;> omega
+/-- **C02 main theorem** (repaired lowering): if the C expression `e` evaluates to `vC` in state `σ` under the
+    macro interpretation `ms`, and the lowering with `Cfg.fixed` produces `ce`, then `ce.il` evaluates (in the same
+    state, no `LET` bindings) to a value related to `vC`, and the compiler type of `ce` is the C type of `e`.
+    Side conditions: `WFE σ e` (computable, see `RzilVerif/Model/ExprWF.lean`) and `MsOK ms` (only used for
+    `.macro` sub-expressions). -/
+theorem expr_correct_fixed (ms : MacroSem) (σ : MState) (env : CEnv) (e : CExpr) (vC : Val) (ce : CE)
+    (hcfg : env.cfg = Cfg.fixed) (hms : MsOK ms) (hwf : WFE σ e = true)
+    (hC : evalC ms σ e = .ok vC) (hI : compileExpr env e = .ok ce) :
+    ∃ vIL, evalPure ms σ [] ce.il = .ok vIL ∧ Rel ce.ty vIL vC ∧ TyOK ce.ty (typeOfC e) vC := by
+  obtain ⟨asg, cfg⟩ := env
+  simp only at hcfg
+  subst hcfg
+  exact (good_all ms σ asg hms e hwf vC ce hC hI).1.spec
 
-/-- The result of a shift has the promoted type of its left operand. -/
-theorem shift_result_type (op : String) (a b : CExpr) : typeOfC (.shift op a b) = (typeOfC a).promote := rfl
+/-- the same without macro calls: no hypothesis on the macro interpretation (`noMacro e`) -/
+theorem expr_correct_fixed_sim (ms : MacroSem) (σ : MState) (asg : List String) (e : CExpr) (vC : Val) (ce : CE)
+    (hms : MsOK ms) (hwf : WFE σ e = true)
+    (hC : evalC ms σ e = .ok vC) (hI : compileExpr ⟨asg, Cfg.fixed⟩ e = .ok ce) :
+    Sim ms σ ce (typeOfC e) vC ∧ (ce.ty.hasFlag VT.gBOOL = true → isBoolE e = true) :=
+  good_all ms σ asg hms e hwf vC ce hC hI
 
-/-- Comparisons and logical operators yield `int`. -/
-theorem cmp_result_type (op : String) (a b : CExpr) : typeOfC (.cmp op a b) = intT := rfl
-theorem log_result_type (op : String) (a b : CExpr) : typeOfC (.log op a b) = intT := rfl
 
-/-- Comparison and logical results are 0 or 1. -/
-theorem boolVal_01 (b : Bool) : boolVal b = .bv 32 0 ∨ boolVal b = .bv 32 1 := by
-  cases b <;> simp [boolVal]
+/-! ## named facts of the property -/
+
+/-- `shift_result_type`: the result of a shift has the promoted type of its LEFT operand, and the IL operator of
+    `>>` is the arithmetic shift iff that type is signed. -/
+theorem shift_result_type (ms : MacroSem) (σ : MState) (asg : List String) (op : String) (a b : CExpr) (vC : Val) (ce : CE)
+    (hms : MsOK ms) (hwf : WFE σ (.shift op a b) = true)
+    (hC : evalC ms σ (.shift op a b) = .ok vC) (hI : compileExpr ⟨asg, Cfg.fixed⟩ (.shift op a b) = .ok ce) :
+    vtCT ce.ty = (typeOfC a).promote ∧
+    ∃ ia ib, ce.il = .bin (if op == "<<" then .shiftl0 else if (typeOfC a).promote.signed then .shiftra else .shiftr0) ia ib := by
+  have hg := (good_all ms σ asg hms _ hwf vC ce hC hI).1
+  have hnb : ce.ty.hasFlag VT.gBOOL = false := by
+    cases h : ce.ty.hasFlag VT.gBOOL
+    · rfl
+    · have := (good_all ms σ asg hms _ hwf vC ce hC hI).2 h; cases this
+  obtain ⟨x, hx⟩ := hg.bv
+  subst hx
+  obtain ⟨ht, -, -⟩ := hg.int_inv hnb
+  refine ⟨ht, ?_⟩
+  simp only [compileExpr_shift, bind_ok_iff, cfgsimp, Bool.false_eq_true, if_false, Except.ok.injEq] at hI
+  obtain ⟨ca, -, cb, -, hI⟩ := hI
+  subst hI
+  have hs : (promotionCast Cfg.fixed ca).ty.signed = (typeOfC a).promote.signed := by
+    have := congrArg CT.signed ht; exact this
+  exact ⟨_, _, by rw [hs]⟩
+
+/-- `cmp_result_01`: a comparison yields the `int` value 0 or 1 in C and the corresponding `bool` in the IL. -/
+theorem cmp_result_01 (ms : MacroSem) (σ : MState) (asg : List String) (op : String) (a b : CExpr) (vC : Val) (ce : CE)
+    (hms : MsOK ms) (hwf : WFE σ (.cmp op a b) = true)
+    (hC : evalC ms σ (.cmp op a b) = .ok vC) (hI : compileExpr ⟨asg, Cfg.fixed⟩ (.cmp op a b) = .ok ce) :
+    ∃ r : Bool, vC = .bv 32 (if r then 1 else 0) ∧ evalPure ms σ [] ce.il = .ok (.bool r) ∧ ce.ty = gBoolT := by
+  have hg := (good_all ms σ asg hms _ hwf vC ce hC hI).1
+  have hty : ce.ty = gBoolT := by
+    simp only [compileExpr_cmp, bind_ok_iff, Except.ok.injEq] at hI
+    obtain ⟨ca, -, cb, -, hI⟩ := hI
+    subst hI
+    unfold cmpBody
+    split
+    · rfl
+    · rfl
+  cases hg with
+  | int x hf => rw [hty] at hf; cases hf
+  | bool r hf hw hs ht hev hv hk => exact ⟨r, hv, hev, hty⟩
+
+/-- `cmp_signed_iff_common_signed`: the run-time comparison is the signed IL operator iff the common type of the
+    two (promoted) operands is signed, and both operands are converted to that common type. -/
+theorem cmp_signed_iff_common_signed {ms σ ca cb ta tb} {x : BitVec ta.width} {y : BitVec tb.width} (op : String)
+    (ha : Sim ms σ ca ta (.bv ta.width x)) (hb : Sim ms σ cb tb (.bv tb.width y)) :
+    ∃ ia ib, (cmpOfCE Cfg.fixed op ca cb).il = cmpIL op (ta.common tb).signed ia ib ∧
+      evalPure ms σ [] ia = .ok (.bv (ta.common tb).width (convBits ta (ta.common tb) x)) ∧
+      evalPure ms σ [] ib = .ok (.bv (ta.common tb).width (convBits tb (ta.common tb) y)) := by
+  obtain ⟨h1, h2⟩ := sim_arith_operands ha hb
+  refine ⟨_, _, ?_, h1.2.2.1, h2.2.2.1⟩
+  rw [cmpOfCE_fixed]
+  simp only
+  have hs1 : (castOperands Cfg.fixed (promotionCast Cfg.fixed ca) (promotionCast Cfg.fixed cb)).1.ty.signed =
+      (ta.common tb).signed := by rw [← h1.2.1]; rfl
+  have hs2 : (castOperands Cfg.fixed (promotionCast Cfg.fixed ca) (promotionCast Cfg.fixed cb)).2.ty.signed =
+      (ta.common tb).signed := by rw [← h2.2.1]; rfl
+  rw [hs1, hs2, Bool.or_self]
+
+/-! ## T2: where the lowering as coded equals the repaired lowering -/
+
+theorem pn_all (asg : List String) (e : CExpr) : PN asg e := by
+  refine CExpr.rec (motive_1 := PN asg) (motive_2 := PNs asg)
+    ?reg ?imm ?lit ?var ?cast ?un ?not ?bin ?shift ?cmp ?log ?tern ?macroc ?load ?post ?call ?stmtexpr ?nil ?cons e
+  case reg => exact fun n k t => pn_reg asg n k t
+  case imm => exact fun l s => pn_imm asg l s
+  case lit => exact fun v h s => pn_lit asg v h s
+  case var => exact fun n t => pn_var asg n t
+  case cast => exact fun t e ih => pn_cast asg t e ih
+  case un => exact fun op e ih => pn_un asg op e ih
+  case not => exact fun e ih => pn_not asg e ih
+  case bin => exact fun op a b iha ihb => pn_bin asg op a b iha ihb
+  case shift => exact fun op a b iha ihb => pn_shift asg op a b iha ihb
+  case cmp => exact fun op a b iha ihb => pn_cmp asg op a b iha ihb
+  case log => exact fun op a b iha ihb => pn_log asg op a b iha ihb
+  case tern => exact fun c a b ihc iha ihb => pn_tern asg c a b ihc iha ihb
+  case macroc => exact fun name args ret params ih => pn_macro asg name args ret params ih
+  case load => exact fun s w t => pn_load asg s w t
+  case post => intro v t op hc; rw [CarveN] at hc; cases hc
+  case call => intro n a r p _ hc; rw [CarveN] at hc; cases hc
+  case stmtexpr => intro t v e _ hc; rw [CarveN] at hc; cases hc
+  case nil => exact pns_nil asg
+  case cons => exact fun a as iha ihas => pns_cons asg a as iha ihas
+
+/-- **T2 (node-wise)**: on a carved expression the two lowerings differ at most in the type of a `!`/`&&`/`||` at
+    the top (`normTy`): same IL, same object kind. Usable for expressions in condition position. -/
+theorem expr_asCode_eq_fixed_upto_boolTy (asg : List String) (e : CExpr) (h : CarveN asg e = true) :
+    compileExpr ⟨asg, Cfg.fixed⟩ e = (compileExpr ⟨asg, Cfg.asCode⟩ e).map (normTy e) :=
+  pn_all asg e h
+
+theorem expr_asCode_il_eq_fixed (asg : List String) (e : CExpr) (h : CarveN asg e = true) :
+    (compileExpr ⟨asg, Cfg.fixed⟩ e).map (fun ce => (ce.il, ce.kind)) =
+    (compileExpr ⟨asg, Cfg.asCode⟩ e).map (fun ce => (ce.il, ce.kind)) := by
+  rw [pn_all asg e h]
+  cases compileExpr ⟨asg, Cfg.asCode⟩ e with
+  | error x => rfl
+  | ok ce => simp only [Except.map, normTy_il, normTy_kind]
+
+/-- **T2**: on a carved expression used as a value the lowering as coded returns exactly the repaired result. -/
+theorem expr_asCode_eq_fixed (env : CEnv) (e : CExpr) (h : CarveE env.assigned e = true) :
+    compileExpr { env with cfg := Cfg.asCode } e = compileExpr { env with cfg := Cfg.fixed } e := by
+  unfold CarveE at h
+  simp only [Bool.and_eq_true, Bool.not_eq_true'] at h
+  exact ((pn_all env.assigned e).val h.1 h.2).symm
+
+/-- consequently the code is correct on carved expressions -/
+theorem expr_correct_asCode_carved (ms : MacroSem) (σ : MState) (env : CEnv) (e : CExpr) (vC : Val) (ce : CE)
+    (hcfg : env.cfg = Cfg.asCode) (hcarve : CarveE env.assigned e = true) (hms : MsOK ms) (hwf : WFE σ e = true)
+    (hC : evalC ms σ e = .ok vC) (hI : compileExpr env e = .ok ce) :
+    ∃ vIL, evalPure ms σ [] ce.il = .ok vIL ∧ Rel ce.ty vIL vC ∧ TyOK ce.ty (typeOfC e) vC := by
+  have h := expr_asCode_eq_fixed env e hcarve
+  have he : ({ env with cfg := Cfg.asCode } : CEnv) = env := by cases env; simp only at hcfg; subst hcfg; rfl
+  rw [he] at h
+  rw [h] at hI
+  exact expr_correct_fixed ms σ { env with cfg := Cfg.fixed } e vC ce rfl hms hwf hC hI
+
+
+/-! ## T3: one witness per excluded class (the two lowerings differ, and `CarveE` says so) -/
+namespace T3
+def s32 : CT := ⟨true, 32⟩
+def s8 : CT := ⟨true, 8⟩
+def u8 : CT := ⟨false, 8⟩
+def u64 : CT := ⟨false, 64⟩
+def s64 : CT := ⟨true, 64⟩
+def rs := CExpr.reg "RsV" .src s32
+def rt := CExpr.reg "RtV" .src s32
+def one := CExpr.lit 1 false ""
+def A (asg : List String) : CEnv := ⟨asg, Cfg.asCode⟩
+def F (asg : List String) : CEnv := ⟨asg, Cfg.fixed⟩
+
+/-- non-vacuity of T2: typical expressions are carved in -/
+example : CarveE [] (.bin "+" rs (.tern (.log "&&" (.cmp "<" rs rt) (.cmp "==" rt one)) (.un "-" rs) (.cast s32 (.var "b" u64)))) = true := by
+  decide
+example : CarveE [] (.macro "extract64" [.var "b" u64, one, one] u64 [u64, s32, s32]) = true := by decide
+
+/-- class 1: a shift whose left operand is narrower than 32 bit (`a << 1`, `int8_t a`) -/
+def eShift := CExpr.shift "<<" (.var "a" s8) one
+theorem shift_narrow_carved : CarveE [] eShift = false := by decide
+theorem shift_narrow_differs : compileExpr (A []) eShift ≠ compileExpr (F []) eShift := by
+  simp [eShift, one, s8, A, F, compileExpr_shift, compileExpr_var, compileExpr_lit, bind, Except.bind, cfgsimp, promotionCast,
+    initACast, VT.promoted, VT.eqv, CT.toVT, VT.hasFlag, VT.gBOOL]
+
+/-- class 2: a comparison whose operands C promotes but raw `c11_cast` does not (`a < b`, `int8_t a`, `uint8_t b`) -/
+def eCmp := CExpr.cmp "<" (.var "a" s8) (.var "b" u8)
+theorem cmp_unpromoted_carved : CarveE [] eCmp = false := by decide
+theorem cmp_unpromoted_differs : compileExpr (A []) eCmp ≠ compileExpr (F []) eCmp := by
+  simp [eCmp, s8, u8, A, F, compileExpr_cmp, compileExpr_var, bind, Except.bind, cmpBody, cmpOfCE, cfgsimp, promotionCast,
+    castOperands, VT.c11Cast, initACast, VT.promoted, VT.eqv, CT.toVT, VT.hasFlag, VT.gBOOL]
+
+/-- class 2': `?:` with narrow arms (`RsV ? a : a2`) -/
+def eTern := CExpr.tern rs (.var "a" s8) (.var "a2" s8)
+theorem tern_unpromoted_carved : CarveE [] eTern = false := by decide
+theorem tern_unpromoted_differs : compileExpr (A []) eTern ≠ compileExpr (F []) eTern := by
+  simp [eTern, rs, s8, s32, A, F, compileExpr_tern, compileExpr_var, compileExpr_reg, bind, Except.bind, ternOfCE, cfgsimp,
+    promotionCast, castOperands, initACast, VT.promoted, VT.eqv, CT.toVT, VT.hasFlag, VT.gBOOL, regVT]
+
+/-- class 3: a logical result used as a value (`!RsV + 1`): the code types `!RsV` as `RsV` -/
+def eNotVal := CExpr.bin "+" (.not rs) one
+theorem bool_as_value_carved : CarveE [] eNotVal = false := by decide
+theorem bool_as_value_differs : compileExpr (A []) eNotVal ≠ compileExpr (F []) eNotVal := by
+  simp [eNotVal, rs, one, s32, A, F, compileExpr_bin, compileExpr_not, compileExpr_reg, compileExpr_lit, bind, Except.bind,
+    binBody, compileBin_eq, binOp?, cfgsimp, promotionCast, castOperands, initACast, VT.promoted, VT.eqv,
+    CT.toVT, VT.hasFlag, VT.gBOOL, regVT, gBool, litTypeC, litTypeCode]
+
+/-- class 4: conversion of a signed narrower source to a wider unsigned target (`(uint64_t)RsV`) -/
+def eCast := CExpr.cast u64 rs
+theorem cast_signed_to_unsigned_carved : CarveE [] eCast = false := by decide
+theorem cast_signed_to_unsigned_differs : compileExpr (A []) eCast ≠ compileExpr (F []) eCast := by
+  simp [eCast, rs, u64, s32, A, F, compileExpr_cast, compileExpr_reg, bind, Except.bind, cfgsimp, initACast, VT.eqv, CT.toVT,
+    VT.hasFlag, VT.gBOOL, regVT]
+
+/-- class 5: a literal whose C11 type differs from the suffix-only type (`0x100000000`) -/
+def eLit := CExpr.lit 0x100000000 true ""
+theorem literal_type_carved : CarveE [] eLit = false := by decide
+theorem literal_type_differs : compileExpr (A []) eLit ≠ compileExpr (F []) eLit := by
+  simp [eLit, A, F, compileExpr_lit, cfgsimp, litTypeC, litTypeCode, CT.toVT]
+
+/-- class 5': literal folding that wraps (`0x7fffffff * 2`) -/
+def eFold := CExpr.bin "*" (.lit 0x7fffffff true "") (.lit 2 false "")
+theorem fold_wraps_carved : CarveE [] eFold = false := by decide
+theorem fold_wraps_differs : compileExpr (A []) eFold ≠ compileExpr (F []) eFold := by
+  simp [eFold, A, F, compileExpr_bin, compileExpr_lit, bind, Except.bind, binBody, foldBin, cfgsimp, litTypeC, litTypeCode,
+    CT.toVT, VT.c11Cast, normInt]
+
+/-- class 6: an explicit register pair (`R1:0`): typed by its class only (32 bit) -/
+def ePair := CExpr.reg "R1:0" .explicit s64
+theorem explicit_pair_carved : CarveE [] ePair = false := by decide
+theorem explicit_pair_differs : compileExpr (A []) ePair ≠ compileExpr (F []) ePair := by
+  simp [ePair, s64, A, F, compileExpr_reg, regVT, cfgsimp, CT.toVT]
+
+/-- class 7: an alias register that is both read and assigned (`HEX_REG_ALIAS_SP` with its operand assigned) -/
+def eAlias := CExpr.reg "HEX_REG_ALIAS_SP" .alias s32
+def asgSP : List String := [opvarOf "HEX_REG_ALIAS_SP" .alias]
+theorem alias_read_assigned_carved : CarveE asgSP eAlias = false := by
+  simp [CarveE, CarveN, regSafe, eAlias, asgSP]
+theorem alias_read_assigned_differs : compileExpr (A asgSP) eAlias ≠ compileExpr (F asgSP) eAlias := by
+  simp only [eAlias, A, F, compileExpr_reg]
+  unfold regRead
+  simp [cfgsimp, asgSP]
+/-- …and not excluded when it is only read -/
+example : CarveE [] eAlias = true := by decide
+/-- the explicit predicate register `P0` (8 bit, not a pair), not assigned: carved in -/
+example : CarveE [] (.reg "P0" .explicit s8) = true := by decide
+
+/-- a concrete state: immediate `s` = 5 (set as local), local `a : int8_t` = −1 -/
+def σ0 : MState := { (default : MState) with imm := fun _ => 5, locals := [("s", .bv 32 5), ("a", .bv 8 0xff)] }
+def e0 : CExpr := .bin "+" (.imm "s" true) (.tern (.cmp "<" (.var "a" s8) (.lit 0 false "")) (.cast u64 (.var "a" s8)) (.lit 1 false "U"))
+
+theorem msOK_trivial : MsOK (fun _ _ => none) := by
+  intro name w _
+  exact ⟨fun _ => rfl, fun vs v h => by cases h⟩
+
+example : WFE σ0 e0 = true := by decide
+example : ∃ vC, evalC (fun _ _ => none) σ0 e0 = .ok vC := ⟨_, by
+  simp [e0, σ0, s8, u64, evalC_bin, evalC_imm, evalC_tern, evalC_cmp, evalC_var, evalC_lit, evalC_cast, lookupS, bind, Except.bind]
+  rfl⟩
+example : (compileExpr ⟨[], Cfg.fixed⟩ e0).toBool = true := by decide
+/-- hence `expr_correct_fixed` applies to `(σ0, e0)`: all its hypotheses are satisfiable together -/
+example : ∃ vC ce, MsOK (fun _ _ => none) ∧ WFE σ0 e0 = true ∧ evalC (fun _ _ => none) σ0 e0 = .ok vC ∧
+    compileExpr ⟨[], Cfg.fixed⟩ e0 = .ok ce := by
+  have h : (compileExpr ⟨[], Cfg.fixed⟩ e0).toBool = true := by decide
+  have hv : ∃ vC, evalC (fun _ _ => none) σ0 e0 = .ok vC := ⟨_, by
+    simp [e0, σ0, s8, u64, evalC_bin, evalC_imm, evalC_tern, evalC_cmp, evalC_var, evalC_lit, evalC_cast, lookupS, bind,
+      Except.bind]
+    rfl⟩
+  obtain ⟨vC, hv⟩ := hv
+  cases hc : compileExpr ⟨[], Cfg.fixed⟩ e0 with
+  | error x => rw [hc] at h; cases h
+  | ok ce => exact ⟨vC, ce, msOK_trivial, by decide, hv, rfl⟩
+
+/-! ### findings: constructs outside `WFE` on which the lowering (both configurations) is wrong or ill-sorted -/
+
+/-- state with one local `x : int = 0` -/
+def σx : MState := { (default : MState) with locals := [("x", .bv 32 0)] }
+
+/-- **finding** a shift whose amount is a comparison result: C gives `x << 1`/`x << 0`, the lowering (as coded and
+    repaired alike) emits `SHIFTL0(x, <bool>)`, which is ill-sorted (evaluation is stuck). Excluded by `WFE`. -/
+def eShiftBool : CExpr := .shift "<<" (.var "x" s32) (.cmp "<" (.var "x" s32) (.lit 1 false ""))
+theorem finding_shift_by_bool_C (ms) : evalC ms σx eShiftBool = .ok (.bv 32 0) := by
+  simp [eShiftBool, σx, s32, evalC_shift, evalC_var, evalC_cmp, evalC_lit, lookupS, bind, Except.bind, convC, typeOfC]
+  rfl
+theorem finding_shift_by_bool_IL (ms) (cfg : Cfg) (h : cfg = Cfg.fixed ∨ cfg = Cfg.asCode) :
+    ∃ ce, compileExpr ⟨[], cfg⟩ eShiftBool = .ok ce ∧ (evalPure ms σx [] ce.il).toBool = false := by
+  rcases h with h | h <;> subst h
+  · refine ⟨_, by simp [eShiftBool, compileExpr_shift, compileExpr_var, compileExpr_cmp, compileExpr_lit, bind, Except.bind, cfgsimp]; rfl, ?_⟩
+    simp [s32, CT.toVT, promotionCast, VT.promoted, VT.eqv, cmpBody, cmpOfCE, cfgsimp, castOperands, litTypeC, evalPure, σx, lookupS,
+      bind, Except.bind, evalBin, isShift, numberIL, Except.toBool]
+  · refine ⟨_, by simp [eShiftBool, compileExpr_shift, compileExpr_var, compileExpr_cmp, compileExpr_lit, bind, Except.bind, cfgsimp]; rfl, ?_⟩
+    simp [s32, CT.toVT, VT.eqv, cmpBody, cmpOfCE, cfgsimp, castOperands, litTypeCode, evalPure, σx, lookupS,
+      bind, Except.bind, evalBin, isShift, numberIL, Except.toBool]
+theorem finding_shift_by_bool_WFE : WFE σx eShiftBool = false := by decide
+
+/-- **model artefact** a literal ≥ 2⁶⁴ (a constraint violation in C): `evalC` wraps it to 64 bit, the lowering folds a
+    constant condition on the unwrapped value. Excluded by `WFE` (`v < 2^64`). -/
+def eHuge : CExpr := .tern (.lit (2 ^ 64) false "") (.lit 1 false "") (.lit 2 false "")
+theorem finding_huge_literal_WFE (σ : MState) : WFE σ eHuge = false := by
+  simp [eHuge, WFE_tern, WFE_lit]
+theorem finding_huge_literal_C (ms σ) : evalC ms σ eHuge = .ok (.bv 32 2) := by
+  simp only [eHuge, evalC_tern, evalC_lit, bind, Except.bind, truthy, typeOfC]
+  rfl
+theorem finding_huge_literal_fixed : ∃ ce, compileExpr ⟨[], Cfg.fixed⟩ eHuge = .ok ce ∧ ce.kind = .lit 1 := by
+  have h1 : litTypeC 1 false "" = ⟨true, 32⟩ := by decide
+  have h2 : litTypeC 2 false "" = ⟨true, 32⟩ := by decide
+  refine ⟨_, by simp [eHuge, compileExpr_tern, compileExpr_lit, bind, Except.bind, cfgsimp]; rfl, ?_⟩
+  simp [ternOfCE, cfgsimp, h1, h2, CT.toVT, promotionCast, VT.promoted, VT.eqv, castOperands]
+
+end T3
 
 end Rzil
